@@ -61,6 +61,9 @@ func genC07(t *rapid.T, tier string) (*World, any) {
 				}
 			}
 		}
+		if chance(t, 12, "undef-in-value") {
+			v += "{{nope}}" // an undefined name inside a value is literal text of that value
+		}
 		vals[names[i]] = v
 	}
 	// reference model: expand to a fixpoint, innermost (last) names first
